@@ -11,8 +11,7 @@ CONSTANTS
  AllowSharedRehash = FALSE
  Sizes = {}
  ZeroBins = FALSE
- SelfAssignClears = FALSE
+ SelfAssignClears = TRUE
 VIEW View
-ACTION_CONSTRAINT Emit
 INVARIANTS BinsOK Refines LengthOK ChainsOK LookupOK SharingOK EqualOK GhostOK
 CHECK_DEADLOCK FALSE
